@@ -59,12 +59,12 @@ Section Single.
   Notation s' := (snd (clean e o clk s0)).
   Notation log := (rev (lg (snd (clean e o clk s0)))).
   Definition model_case : case :=
-    Case (lfe e) s0 [RunRec t o (faults e) (efaults e) (cancel_at e) t0 t1 (result_code r) []]
+    Case (lfe e) s0 [RunRec t o (faults e) (efaults e) (cancel_at e) t0 t1 (result_code r) [] (pfaults e) None]
          (map (TEv t) log) (sto s').
 
-  Lemma model_under_lock : under_lock None (c_trace model_case) = true.
+  Lemma model_under_lock : under_lock None (lock_trace model_case) = true.
   Proof.
-    cbn [c_trace model_case].
+    unfold lock_trace. cbn [c_runs c_trace model_case fold_left rr_kill].
     apply (bracketed_threads_exclusive _ None (fun _ => false)); [reflexivity| |].
     - intros t'. destruct (Nat.eq_dec t t') as [<-|Ne].
       + rewrite proj_single. apply clean_thread_ok.
@@ -123,7 +123,7 @@ Section Single.
 
   Lemma model_runs_ok : runs_ok model_case (c_runs model_case) (rec0 (c_s0 model_case)) = true.
   Proof.
-    cbn [c_runs c_s0 model_case runs_ok rr_tid rr_opts rr_t1 rr_res c_trace]. rewrite proj_single.
+    cbn [c_runs c_s0 model_case runs_ok rr_tid rr_opts rr_t1 rr_res c_trace rr_kill orb]. rewrite proj_single.
     rewrite andb_true_r. apply andb_true_iff; split; [apply andb_true_iff; split|].
     - destruct (rec0 s0) as [ts|] eqn:R; [|reflexivity].
       destruct ((0 <? interval o) && (t1 - ts <? interval o)) eqn:C; [|reflexivity].
@@ -148,15 +148,15 @@ End Single.
 
 (** and of course the model agrees with itself: check_line's first component (the replay runs the
     model with the constant clock t0) *)
-Theorem model_ok_refl e o now s0 t :
+Theorem model_ok_refl e o now s0 t : kill_at e = None ->
   replay (model_case e o (fun _ => now) now now s0 t) (c_runs (model_case e o (fun _ => now) now now s0 t)) s0
   = Some (sto (snd (clean e o (fun _ => now) s0))).
 Proof.
   assert (L : forall l, list_eqb event_eqb l l = true).
   { induction l as [|x l IH]; [reflexivity|]. cbn [list_eqb]. rewrite IH, andb_true_r.
     unfold event_eqb. rewrite N.eqb_refl, seqb_refl. destruct (ev_ok x); reflexivity. }
-  unfold model_case.
-  cbn [c_runs c_s0 replay rr_fops]. unfold env_of. cbn [rr_faults rr_efaults rr_cancel c_lfe rr_opts rr_t0 rr_res rr_tid c_trace].
-  replace (Env (faults e) (efaults e) (cancel_at e) (lfe e)) with e by (destruct e; reflexivity).
+  intros Hk. unfold model_case.
+  cbn [c_runs c_s0 replay rr_fops rr_kill]. unfold env_of. cbn [rr_faults rr_efaults rr_cancel c_lfe rr_opts rr_t0 rr_res rr_tid c_trace rr_pfaults rr_kill].
+  replace (Env (faults e) (efaults e) (cancel_at e) (lfe e) (pfaults e) None) with e by (destruct e; cbn in Hk; subst; reflexivity).
   destruct (clean e o (fun _ => now) s0) as [r0 st0]. cbn [fst snd]. rewrite N.eqb_refl, proj_single, L. reflexivity.
 Qed.
